@@ -29,6 +29,7 @@ Definition run_stream (sid : Z) (cfg : list Z) (ops : list (list Z)) : list (lis
   else if sid =? 75 then run_out rb_step (rb_init cfg) ops
   else if sid =? 151 then run_out ix_step (ix_init cfg) ops
   else if sid =? 42 then run_out qc_step (ql_init cfg) ops
+  else if sid =? 171 then run_out rgl_step (rgl_init cfg) ops
   else if sid =? 81 then run_out pl_step (pl_of_cfg cfg) ops
   else if sid =? 191 then run_out ghost_step (ghost_init cfg) ops
   else [].
